@@ -12,7 +12,7 @@ STRING_CONSUMERS = {"strlen": (0,), "strcmp": (0, 1), "strncmp": (0, 1), "strstr
                     "atoi": (0,), "strtol": (0,), "strtoul": (0,), "strtoimax": (0,), "strtoumax": (0,), "strtod": (0,),
                     "parsenum_float": (0,), "parsenum_signed": (0,), "parsenum_unsigned": (0,)}
 STRTO_FAMILY = {"strtol", "strtoul", "strtoimax", "strtoumax", "strtod", "parsenum_float", "parsenum_signed", "parsenum_unsigned", "atoi"}
-PRINTF_LIKE = {"warn0": 0, "warnp": 0, "libcperciva_warn": 0, "libcperciva_warnx": 0, "printf": 0, "fprintf": 1, "snprintf": 2}
+PRINTF_LIKE = {"warn0": 0, "warnp": 0, "warn": 0, "warnx": 0, "libcperciva_warn": 0, "libcperciva_warnx": 0, "printf": 0, "fprintf": 1, "snprintf": 2}
 RAW_SOURCES = {"netbuf_read_peek": (1,)}     # out-parameters that receive a pointer to length-delimited bytes
 
 
